@@ -223,7 +223,7 @@ fn hand_sets() -> Vec<SetCase> {
         SetCase {
             label: "hand:arith-inherit".into(),
             templates: v(&[
-                ("p.html", "{% block t %}{{ a.x.x + 1 }}{% endblock %}{% for i in b %}{{ i.x | default(value=a.y) | json_encode }}{% endfor %}"),
+                ("p.html", "{% block t %}{{ a.x.x + 1 }}{% endblock %}{% for i in b %}{{ i.x | default(value=a.y) | upper }}{% endfor %}"),
                 ("c.html", "{% extends \"p.html\" %}{% block t %}{{ super() }}{{ a.y * 2 }}{% if a.x.y %}{{ a.x.y.z }}{% endif %}{% endblock %}"),
             ]),
         },
